@@ -15,4 +15,8 @@ open PedVerif.Switch
 #print axioms redecorate_disabled_is_identity
 #print axioms read_at_redecoration
 #print axioms first_result_unaffected_by_redecoration
+#print axioms carries_subclass
+#print axioms callm_state
+#print axioms read_at_decoration_inherited
+#print axioms read_at_decoration_inherited_call
 #print axioms run_refines_spec
